@@ -39,6 +39,9 @@ STORE_VALUES = {
     # zero is a legal value of Poisson's ratio and differs from the
     # default 0.5
     "fit param nu value": {"fn_a": 0.0, "fn_b": 0.25},
+    # entries left by another model whose parameter names extend "E"/"nu"
+    "fit param E_S value": {"fes_a": 777.0, "fes_b": 4321.0},
+    "fit param nu_S value": {"fns_a": 0.125, "fns_b": 0.375},
 }
 # keys a version-1.7.8 key=value profile can hold
 LEGACY_KEYS = ["model_key", "preprocessing", "range_type", "range_x",
@@ -134,10 +137,14 @@ def store_histories(tier, rng):
                                        [None, "fv_a", "fv_b"],
                                        [None, "fr_a"],
                                        [None, "fn_a", "fn_b"],
+                                       [None, "fes_a"],
+                                       [None, "fns_a"],
                                        [None, "mk_para", "mk_cone"]):
             o = []
             for k, vid in zip(["fit param E value", "fit param E vary",
                                "fit param R value", "fit param nu value",
+                               "fit param E_S value",
+                               "fit param nu_S value",
                                "model_key"], combo):
                 if vid:
                     o.append(("set", k, vid))
@@ -145,6 +152,8 @@ def store_histories(tier, rng):
             # (reading the parameters does not change what is stored)
             if combo[3]:
                 o.append(("get", "fit param nu value"))
+            if combo[0]:
+                o.append(("get", "fit param E value"))
             hists.append({"init": init, "ops": o})
     return hists
 
@@ -525,6 +534,12 @@ def run_batch(tmp):
              "fmt-jpk-fd_map2x2_extracted.jpk-force-map"]
     for f in files:
         shutil.copy2(vcommon.REPO / "tests" / "data" / f, data / f)
+    # a sub-folder with a link to one of the files (a "selection")
+    (data / "selected").mkdir()
+    try:
+        (data / "selected" / files[0]).symlink_to(data / files[0])
+    except OSError:
+        pass
     ppath = tmpd / "profile.cfg"
     pf = prof.Profile(path=ppath)
     pf["model_key"] = "hertz_para"
